@@ -32,6 +32,7 @@ static pending_call_t *call_list_free;
 static time_t call_out_time = 0;
 static int num_call;
 static int unique = 0;
+static int call_out_sweeping = 0; /* 1 while call_out() runs the callbacks of second call_out_time + 1 */
 
 static void free_call (pending_call_t *);
 static void free_called_call (pending_call_t *);
@@ -127,7 +128,8 @@ int new_call_out (object_t * ob, svalue_t * fun, time_t delay, int num_args, sva
 
   /* Find out which slot this one fits in */
   tm = (delay + current_time) & (CALLOUT_CYCLE_SIZE - 1);
-  delay = (1 + (delay + current_time - call_out_time - 1) / CALLOUT_CYCLE_SIZE);
+  /* while call_out() is working on second call_out_time + 1, that second's slot has already been visited */
+  delay = (1 + (delay + current_time - (call_out_time + call_out_sweeping) - 1) / CALLOUT_CYCLE_SIZE);
 
   for (copp = &call_list[tm]; *copp; copp = &(*copp)->next)
     {
@@ -183,6 +185,7 @@ call_out ()
       /* we increment at the end in case we are interrupted by errors,
          but we need to use call_out_time + 1 here. */
       tm = (call_out_time + 1) & (CALLOUT_CYCLE_SIZE - 1);
+      call_out_sweeping = 1;
       if (call_list[tm] && --call_list[tm]->delta == 0)
         do
           {
@@ -258,6 +261,7 @@ call_out ()
               }
           }
         while (call_list[tm] && call_list[tm]->delta == 0);
+      call_out_sweeping = 0;
       call_out_time++;
     }
 
